@@ -1004,6 +1004,72 @@ def conc_engine(pid, spec, tier, seed, workdir, res):
                 res['violations'].append(dict(kind='monitor', code=code, case='race-stress', payload=dict(finding=line.strip()[:3000], how='harness/conc_test.go TestConcRace; VERIF_SEED=%d (free-running goroutines: the interleaving is not replayed exactly)' % seed)))
 
 
+def parse_wr(line):
+    t = line.split()
+    if len(t) < 2 or t[1] != 'ok':
+        return None
+    c = Cur(' '.join(t[2:]))
+    o = dict(id=c.b(), status=c.int())
+    o['hdr'] = read_headers(c)
+    o['body'] = c.next()
+    return o
+
+
+def bytes_engine(pid, spec, tier, seed, workdir, res):
+    """C05: real HTTP framings over the loopback interface; replays compared byte for byte with what the cache received;
+    the bytes it stored are parsed by the extracted reader (Wire.parse_entry) and by Go's own."""
+    known = load_known()
+    out = os.path.join(workdir, 'bytes')
+    os.makedirs(out, exist_ok=True)
+    rc, log = run_harness('TestBytes', dict(VERIF_SEED=str(seed), VERIF_TIER=tier), out, timeout=3400)
+    if rc != 0 or not os.path.exists(os.path.join(out, 'bytes.txt')):
+        res['errors'].append('byte-faithfulness harness failed: ' + log[-1500:])
+        return
+    kinds = res['distribution']
+    for l in open(os.path.join(out, 'bytes.txt')):
+        res['evaluations'] += 1
+        d = dict(kv.split('=', 1) for kv in re.findall(r'(\w+=(?:"(?:[^"\\]|\\.)*"|\S+))', l))
+        kinds['framing:' + d.get('framing', '?')] = kinds.get('framing:' + d.get('framing', '?'), 0) + 1
+        kinds['backend:' + d.get('backend', '?')] = kinds.get('backend:' + d.get('backend', '?'), 0) + 1
+        n = int(d.get('body_len', '0'))
+        b = 'body:0' if n == 0 else 'body:1-99' if n < 100 else 'body:100-4095' if n < 4096 else 'body:4096-65535' if n < 65536 else 'body:>=65536'
+        kinds[b] = kinds.get(b, 0) + 1
+        res['nontrivial'].add(hashlib.sha1((d.get('framing', '') + d.get('body_sha', '') + d.get('fields', '') + d.get('backend', '')).encode()).hexdigest())
+        if len(res['samples']) < 3 and kinds['framing:' + d.get('framing', '?')] == 1:
+            res['samples'].append(l.strip()[:300])
+        if l.split()[-1] == 'BAD':
+            probs = d.get('problems', '')
+            code = 'C05:' + ('hop-by-hop' if 'hop-by-hop' in probs else 'body' if 'body' in probs else 'status' if 'status' in probs else 'field')
+            if not known_open(pid, code, known):
+                res['violations'].append(dict(kind='monitor', code=code, case=d.get('case', '?') + '-' + d.get('backend', '?'),
+                                              payload=dict(experiment=l.strip()[:3000], how='harness/bytes_test.go TestBytes: the case names framing, status, body (length, first bytes of its SHA-256; bodies come from bodyCorpus with VERIF_SEED=%d), header corpus entry' % seed)))
+    # the stored bytes, read by the model and by Go
+    wp = os.path.join(out, 'wire.txt')
+    raws, goes = [], []
+    for l in open(wp):
+        a, _, b = l.partition(' | ')
+        raws.append(a)
+        goes.append(b.strip())
+    rc2, o, e = sh('./modelbin', cwd=MODEL, stdin='\n'.join(raws) + '\n', timeout=1200)
+    mods = [x for x in o.splitlines() if x.startswith('WR ')]
+    if len(mods) != len(goes):
+        res['errors'].append('model reading of stored bytes: %d lines for %d entries: %s' % (len(mods), len(goes), e[-300:]))
+        return
+    for raw, g, m in zip(raws, goes, mods):
+        res['traces_validated'] += 1
+        go, mo = parse_wr(g), parse_wr(m)
+        same = (go is None) == (mo is None)
+        if same and go is not None:
+            # net/http moves Trailer into Response.Trailer and drops "Connection: close" for HTTP/1.1 while reading
+            mh = {k: v for k, v in mo['hdr'].items() if k not in ('Trailer', 'Connection')}
+            gh = {k: v for k, v in go['hdr'].items() if k not in ('Trailer', 'Connection')}
+            same = (go['id'], go['status'], go['body']) == (mo['id'], mo['status'], mo['body']) and mh == gh
+        kinds['wire:entries'] = kinds.get('wire:entries', 0) + 1
+        if not same:
+            res['mismatches'].append(dict(case='wire-' + hashlib.sha1(raw.encode()).hexdigest()[:10], exchange=0, why='a stored entry is read differently by the model (Wire.parse_entry) and by Go',
+                                          payload=dict(stored_bytes_hex=raw.split()[1][:20000], go=g[:3000], model=m[:3000])))
+
+
 # ---------------------------------------------------------------- replay files
 
 def write_replay(pid, name, payload):
